@@ -5,9 +5,9 @@ CHECK = Check(
     props_modules=["OW.Props.C15"],
     families=[
         # Go gr4j vs its Lean kernel model (ties the model the theorems are about to the code)
-        Family("K", rtol=1e-9, atol_scale=1e-12, args=["models=GR4J", "prop=C15", "n=300"], label="K-GR4J"),
+        Family("K", rtol=1e-9, atol_scale=1e-12, args=["models=GR4J", "prop=C15", "n=600"], label="K-GR4J"),
         # Go gr4j vs the independent specification (Perrin et al. 2003) executed at Float
-        Family("KSPEC", rtol=1e-9, atol_scale=1e-12, args=["variant=spec", "n=300"], label="KSPEC-safeguarded"),
+        Family("KSPEC", rtol=1e-9, atol_scale=1e-12, args=["variant=spec", "n=600"], label="KSPEC-safeguarded"),
         # equations exactly as printed (no cap on the tanh argument): the code caps it at 13 and tanh 13 = 1 - 1.02e-11,
         # so on days with |P-E| > 13 x1 the two differ by up to ~1e-11 of the store size: absolute tolerance 1e-10 x scale
         Family("KSPEC", rtol=1e-9, atol_scale=1e-10, args=["variant=published", "n=150"], label="KSPEC-published"),
